@@ -204,6 +204,16 @@ Section Proxy.
   Variable md5 : bytes -> bytes.
   Variable rx : N -> bytes -> option (list (Z * Z)).
   Variable cfg : config.
+  (* allocation-failure oracle (C19): "stage k of the handler runs out of memory".  The stages are the points
+     where the C code allocates and has an error branch; the proxy's ordinary behaviour is the instance
+     fs = fun _ => false.  Stage numbers: 1 request parse, 2 building a local reply, 3 serialising a reply,
+     4 rewriteIn, 5 User-Name rewrite, 6 User-Name text, 7 CHAP-Challenge, 8 rewriteOut, 9 Message-Authenticator
+     placeholder, 10 TTL attribute (silently skipped), 11/12 the attribute handed to a local reply (reply goes
+     out without it), 13 Proxy-State copy (reply goes out without them), 14 reply-queue push, 15 realm lookup (treated as no realm),
+     20.. the same for replyh, 40/41 building a Status-Server probe, 130+j the j-th Proxy-State copy,
+     100+id serialising the request for slot id. *)
+  Variable fs : N -> bool.
+  (* written `if fs k then None else x` in place: the extracted code must not evaluate x (regex oracle calls) when the stage fails *)
 
   Definition clconf_of (c : nat) : clconf :=
     nth c (cf_clients cfg) (mkCl [] 0 [] 0 0 None None None false false).
@@ -225,7 +235,8 @@ Section Proxy.
               | Some b => Some b
               | None =>
                   match rq_msg r with
-                  | Some m => match radmsg2buf md5 m (cc_secret (clconf_of c)) with
+                  | Some m => if fs 3 then None else
+                              match radmsg2buf md5 m (cc_secret (clconf_of c)) with
                               | Ok (Some (b, _)) => Some b
                               | _ => None
                               end
@@ -234,13 +245,20 @@ Section Proxy.
               end in
             let r1 := rq_set_msg (rq_set_replybuf r rb) None in
             let st1 := set_rq st h r1 in
-            match rb with
+            match (if fs 14 then None else rb) with
             | None => (freerq st1 h, [])
             | Some b =>
                 let cl := get_client st1 c in
                 (set_client st1 c (mkClient (c_rqs cl) (c_replyq cl ++ [h])), [OReply c b])
             end
         end
+    end.
+
+  (* radmsg_copy_attrs stops at the first copy it cannot allocate: a prefix is copied (stage 130+j = the j-th copy) *)
+  Fixpoint copy_prefix (l : list tlv) (j : N) : list tlv :=
+    match l with
+    | [] => []
+    | x :: r => if fs (130 + j) then [] else x :: copy_prefix r (j + 1)
     end.
 
   (* ---------------------------------------------------------------- respond *)
@@ -254,13 +272,13 @@ Section Proxy.
         | None => (st, [])
         | Some m =>
             let a0 := if add_ma then [msgauth_placeholder] else [] in
-            match (match extra with
+            match (if fs 2 then None else (match extra with
                    | Some e => radmsg_add a0 e
                    | None => Some a0
-                   end) with
+                   end)) with
             | None => (st, [])
             | Some a1 =>
-                let a2 := a1 ++ getalltype Consts.RAD_Attr_Proxy_State (m_attrs m) in
+                let a2 := a1 ++ (if fs 13 then [] else copy_prefix (getalltype Consts.RAD_Attr_Proxy_State (m_attrs m)) 0) in
                 let reply := mkMsg code (m_id m) (m_auth m) a2 false in
                 let st1 := set_rq st h (rq_set_msg r (Some reply)) in
                 sendreply (newrqref st1 h) h
@@ -329,7 +347,7 @@ Section Proxy.
             | None => None
             | Some m =>
                 let m1 := set_id m id in
-                match radmsg2buf md5 m1 (sc_secret (srvconf_of s)) with
+                match (if fs (100 + id) then Ok None else radmsg2buf md5 m1 (sc_secret (srvconf_of s))) with
                 | Ok (Some (b, auth')) =>
                     let r1 := rq_set_msg (rq_set_buf (rq_set_newid r id) (Some b)) (Some (set_auth m1 auth')) in
                     let st1 := set_rq st h r1 in
@@ -467,7 +485,7 @@ Section Proxy.
         let cc := clconf_of c in
         let buf := match rq_buf r0 with Some b => b | None => [] end in
         let st := set_rq st h (rq_set_buf r0 None) in
-        match buf2radmsg md5 buf (cc_secret cc) None with
+        match (if fs 1 then None else (buf2radmsg md5 buf (cc_secret cc) None)) with
         | None => (freerq st h, [ORet 0])
         | Some msg =>
             if m_mainvalid msg then (freerq st h, [ORet 0])
@@ -479,7 +497,7 @@ Section Proxy.
               let rmclrqexit (st : state) (o : list out) := exit (rmclientrq st h (m_id msg)) o in
               if (code =? Consts.RAD_Disconnect_Request) || (code =? Consts.RAD_CoA_Request) then
                 let nak := if code =? Consts.RAD_Disconnect_Request then Consts.RAD_Disconnect_NAK else Consts.RAD_CoA_NAK in
-                let '(st1, o) := respond st h nak (Some (mkTlv Consts.RAD_Attr_Error_Cause (be_encode 4 Consts.RAD_Err_Unsupported_Extension))) true in
+                let '(st1, o) := respond st h nak ((if fs 11 then None else (Some (mkTlv Consts.RAD_Attr_Error_Cause (be_encode 4 Consts.RAD_Err_Unsupported_Extension))))) true in
                 exit st1 o
               else if negb ((code =? Consts.RAD_Access_Request) || (code =? Consts.RAD_Status_Server) || (code =? Consts.RAD_Accounting_Request)) then
                 exit st []
@@ -497,7 +515,7 @@ Section Proxy.
                 else if o_verifyeap (cf_opt cfg) && (code =? Consts.RAD_Access_Request) && negb (verifyeapformat (m_attrs msg)) then
                   let '(st1, o) := respond st h Consts.RAD_Access_Reject None true in exit st1 o
                 else
-                  match dorewrite rx (m_attrs msg) (cc_rwin cc) with
+                  match (match cc_rwin cc with Some _ => (if fs 4 then None else (dorewrite rx (m_attrs msg) (cc_rwin cc))) | None => dorewrite rx (m_attrs msg) (cc_rwin cc) end) with
                   | None => rmclrqexit st []
                   | Some a1 =>
                       let st := upd_rq st h (fun r => rq_set_msg r (Some (set_attrs msg a1))) in
@@ -512,7 +530,7 @@ Section Proxy.
                             else exit st []
                         | Some ua =>
                             match (match cc_rwuser cc with
-                                   | Some m => rewriteusername (tlv_v ua) m
+                                   | Some m => (if fs 5 then None else (rewriteusername (tlv_v ua) m))
                                    | None => Some (tlv_v ua, None)
                                    end) with
                             | None => rmclrqexit st []
@@ -520,10 +538,10 @@ Section Proxy.
                                 let a3 := replace_first Consts.RAD_Attr_User_Name uname a2 in
                                 let st := upd_rq st h (fun r => rq_set_origuser (rq_set_msg r (Some (set_attrs msg a3))) orig) in
                                 (* radattr2ascii(NULL value) fails for an empty User-Name *)
-                                if nlen uname =? 0 then rmclrqexit st []
+                                if (nlen uname =? 0) || fs 6 then rmclrqexit st []
                                 else
                                   let acct := code =? Consts.RAD_Accounting_Request in
-                                  match (if existsb (N.eqb 0) uname then None else id2realm (cf_realms cfg) (cstr uname)) with
+                                  match (if existsb (N.eqb 0) uname then None else (if fs 15 then None else (id2realm (cf_realms cfg) (cstr uname)))) with
                                   | None => exit st []
                                   | Some rl =>
                                       let '(to, st) := choose st (if acct then rl_acc rl else rl_srv rl) in
@@ -532,7 +550,7 @@ Section Proxy.
                                           match rl_msg rl with
                                           | Some txt =>
                                               if code =? Consts.RAD_Access_Request then
-                                                let '(st1, o) := respond st h Consts.RAD_Access_Reject (Some (mkTlv Consts.RAD_Attr_Reply_Message txt)) true in exit st1 o
+                                                let '(st1, o) := respond st h Consts.RAD_Access_Reject ((if fs 12 then None else (Some (mkTlv Consts.RAD_Attr_Reply_Message txt)))) true in exit st1 o
                                               else if rl_accresp rl && acct then
                                                 let '(st1, o) := respond st h Consts.RAD_Accounting_Response None false in exit st1 o
                                               else exit st []
@@ -548,11 +566,12 @@ Section Proxy.
                                           then exit st []
                                           else
                                             (* CHAP-Challenge completion *)
-                                            let a4 :=
-                                              match gettype Consts.RAD_Attr_CHAP_Password a3, gettype Consts.RAD_Attr_CHAP_Challenge a3 with
-                                              | Some _, None => a3 ++ [mkTlv Consts.RAD_Attr_CHAP_Challenge (m_auth msg)]
-                                              | _, _ => a3
-                                              end in
+                                            match (match gettype Consts.RAD_Attr_CHAP_Password a3, gettype Consts.RAD_Attr_CHAP_Challenge a3 with
+                                                   | Some _, None => (if fs 7 then None else (Some (a3 ++ [mkTlv Consts.RAD_Attr_CHAP_Challenge (m_auth msg)])))
+                                                   | _, _ => Some a3
+                                                   end) with
+                                            | None => rmclrqexit st []
+                                            | Some a4 =>
                                             (* new Request Authenticator *)
                                             let newauth := if acct then zeros 16 else fst (take_rand rnd 16) in
                                             (* User-Password *)
@@ -566,16 +585,20 @@ Section Proxy.
                                                    end) with
                                             | None => rmclrqexit (upd_rq st h (fun r => rq_set_msg r (Some (set_auth (set_attrs msg a4) newauth)))) []
                                             | Some a5 =>
-                                                match dorewrite rx a5 (sc_rwout sc) with
+                                                match (match sc_rwout sc with Some _ => (if fs 8 then None else (dorewrite rx a5 (sc_rwout sc))) | None => dorewrite rx a5 (sc_rwout sc) end) with
                                                 | None => rmclrqexit (upd_rq st h (fun r => rq_set_msg r (Some (set_auth (set_attrs msg a5) newauth)))) []
                                                 | Some a6 =>
+                                                    if (code =? Consts.RAD_Access_Request) && fs 9
+                                                    then rmclrqexit (upd_rq st h (fun r => rq_set_msg r (Some (set_auth (set_attrs msg a6) newauth)))) []
+                                                    else
                                                     let a7 := if code =? Consts.RAD_Access_Request then ensuremsgauthfront a6 else a6 in
-                                                    let a8 := ttl_stage_add (o_ttl0 (cf_opt cfg)) (o_ttl1 (cf_opt cfg)) (o_addttl (cf_opt cfg)) (sc_addttl sc) ttlres a7 in
+                                                    let a8 := if fs 10 then a7 else ttl_stage_add (o_ttl0 (cf_opt cfg)) (o_ttl1 (cf_opt cfg)) (o_addttl (cf_opt cfg)) (sc_addttl sc) ttlres a7 in
                                                     let m8 := set_auth (set_attrs msg a8) newauth in
                                                     let st := upd_rq st h (fun r => rq_set_to (rq_set_msg r (Some m8)) (Some s)) in
                                                     let '(st1, o) := sendrq st h in
                                                     (st1, o ++ [ORet 1])
                                                 end
+                                            end
                                             end
                                       end
                                   end
@@ -666,7 +689,7 @@ Section Proxy.
     let sl := get_slot (get_server st s) id in
     let rqo := match sl_rq sl with Some h => match get_rq st h with Some r => Some (h, r) | None => None end | None => None end in
     let rqauth := match rqo with Some (_, r) => match rq_msg r with Some m => Some (m_auth m) | None => None end | None => None end in
-    match buf2radmsg md5 buf (sc_secret sc) rqauth with
+    match (if fs 20 then None else (buf2radmsg md5 buf (sc_secret sc) rqauth)) with
     | None => (st, [ORet 0])
     | Some msg =>
         let code := m_code msg in
@@ -692,7 +715,7 @@ Section Proxy.
                 else
                   let sv := get_server st s in
                   let st := set_server st s (set_times sv (s_lastrcv sv) now) in
-                  match dorewrite rx (m_attrs msg) (sc_rwin sc) with
+                  match (match sc_rwin sc with Some _ => (if fs 21 then None else (dorewrite rx (m_attrs msg) (sc_rwin sc))) | None => dorewrite rx (m_attrs msg) (sc_rwin sc) end) with
                   | None => (st, [ORet 1])
                   | Some a1 =>
                       let '(ttlres, a2) := checkttl (o_ttl0 (cf_opt cfg)) (o_ttl1 (cf_opt cfg)) a1 in
@@ -716,16 +739,17 @@ Section Proxy.
                                     match (match rq_origuser r, gettype Consts.RAD_Attr_User_Name a4 with
                                            | Some ou, Some _ =>
                                                if Consts.RAD_Max_Attr_Value_Length <? nlen ou then None
-                                               else Some (replace_first Consts.RAD_Attr_User_Name ou a4)
+                                               else (if fs 24 then None else (Some (replace_first Consts.RAD_Attr_User_Name ou a4)))
                                            | _, _ => Some a4
                                            end) with
                                     | None => (st, [ORet 1])
                                     | Some a5 =>
-                                        match dorewrite rx a5 (cc_rwout cc) with
+                                        match (match cc_rwout cc with Some _ => (if fs 25 then None else (dorewrite rx a5 (cc_rwout cc))) | None => dorewrite rx a5 (cc_rwout cc) end) with
                                         | None => (st, [ORet 1])
                                         | Some a6 =>
+                                            if reply_code code && fs 29 then (st, [ORet 1]) else
                                             let a7 := if reply_code code then ensuremsgauthfront a6 else a6 in
-                                            let a8 := ttl_stage_add (o_ttl0 (cf_opt cfg)) (o_ttl1 (cf_opt cfg)) (o_addttl (cf_opt cfg)) (cc_addttl cc) ttlres a7 in
+                                            let a8 := if fs 30 then a7 else ttl_stage_add (o_ttl0 (cf_opt cfg)) (o_ttl1 (cf_opt cfg)) (o_addttl (cf_opt cfg)) (cc_addttl cc) ttlres a7 in
                                             let reply := mkMsg code (rq_rqid r) (rq_rqauth r) a8 false in
                                             let st := set_rq st h (rq_set_msg r (Some reply)) in
                                             let '(st, o) := sendreply (newrqref st h) h in
@@ -834,6 +858,10 @@ Section Proxy.
         ((mode =? Consts.RSP_STATSRV_AUTO) && (s_laststatsrv sv <=? s_lastreply sv)%Z))
     then
       let st := set_server st s (set_wr sv now (s_timeout sv) (s_newrq sv) (s_conreset sv) false) in
+      (* createstatsrvrq runs out of memory: no probe this time (40: before the authenticator was drawn, 41: after) *)
+      if fs 40 then (st, o1, rnd)
+      else if fs 41 then (st, o1, skipn 16 rnd)
+      else
       let '(st, h) := createstatsrvrq st s now rnd in
       let '(st, o2) := sendrq st h in
       (st, o1 ++ o2, skipn 16 rnd)
